@@ -26,8 +26,17 @@ def _hw_spec(name="qubit_highwater"):
     return [{"name": name, "type": "qubits", "calculate": calculate_highwater}]
 
 
+def _derived_ancillae(routine, backend):
+    """a derived `local_ancillae`: one scratch qubit per child plus one (replaces a hand-written value, like any derived resource)"""
+    return backend.as_expression(str(len(routine.children) + 1))
+
+
 def compile_kw(seed):
-    return {"derived_resources": _hw_spec(hw_name(seed))}
+    specs = _hw_spec(hw_name(seed))
+    if seed % 4 == 1:
+        # several derived resources in one list: the ancillae are derived first, the highwater after them must count the derived value
+        specs = [{"name": "local_ancillae", "type": "qubits", "calculate": _derived_ancillae}] + specs
+    return {"derived_resources": specs}
 
 
 def gen(seed, extra):
